@@ -713,6 +713,16 @@ class Model(CallsMixin, BuiltinsMixin):
             return BOOL()
         if isinstance(op, (ast.In, ast.NotIn)):
             pos = isinstance(op, ast.In)
+            if b.k == 'arr' and b.dims is not None and (
+                    len(b.dims) >= 2 or a.k in ('arr', 'list', 'tuple')):
+                # x in <ndarray> is (arr == x).any(): element-wise, not
+                # membership of a row / of a sequence
+                self.site('K-inarr', node, 'violation',
+                          'membership test on an ndarray of %d axes: NumPy '
+                          'evaluates (array == item).any() element-wise, so '
+                          'an item that shares a single coordinate with some '
+                          'row "is in" the array (and a sequence item against '
+                          'a list of arrays raises)' % len(b.dims))
             if b.k in ('list', 'tuple') and b.items is not None and \
                     a.has_const() and all(x.has_const() for x in b.items):
                 return BOOL((a.c in [x.c for x in b.items]) == pos)
@@ -877,6 +887,32 @@ class Model(CallsMixin, BuiltinsMixin):
     def unit_cmp(self, a, b, node):
         ua, ub = a.unit, b.unit
         if a.has_const() or b.has_const():
+            # a quantity that scales with the data against a non-zero literal:
+            # an absolute threshold (collected only by the properties whose
+            # statement says "whatever the scale of the data")
+            c_, x_ = (a, b) if a.has_const() else (b, a)
+
+            def _lit(n_):
+                if isinstance(n_, ast.Constant):
+                    return isinstance(n_.value, (int, float))
+                if isinstance(n_, ast.UnaryOp):
+                    return _lit(n_.operand)
+                if isinstance(n_, ast.BinOp):
+                    return _lit(n_.left) and _lit(n_.right)
+                return False
+            # only a literal written in the comparison itself (a parameter
+            # such as the accuracy e is the caller's, documented, choice)
+            src_lit = isinstance(node, ast.Compare) and \
+                len(node.ops) == 1 and \
+                _lit(node.left if a.has_const() else node.comparators[0])
+            if src_lit and isinstance(c_.c, (int, float)) and \
+                    not isinstance(c_.c, bool) and c_.c != 0 and \
+                    x_.k in ('float', 'arr') and x_.unit is not None and \
+                    x_.unit != 0 and not x_.has_const():
+                self.site('U-abs', node, 'violation',
+                          'a quantity of unit sigma^%s (it scales with the '
+                          'data) is compared with the absolute literal %r'
+                          % (x_.unit, c_.c))
             return
         # power-of-two scale of both sides (stabilised routines): a threshold
         # must be expressed at the scale of the quantity it is compared with
